@@ -326,3 +326,33 @@ func TestC08Exhaustive(t *testing.T) {
 	}
 	_ = strings.Repeat
 }
+
+// TestC08Long: no length limit in Codabar and 2 of 5 either: very long contents (symbols of several hundred thousand
+// modules, digit strings far beyond any machine integer, weighted sums beyond 16 bits).
+func TestC08Long(t *testing.T) {
+	st := NewStats("C08", "long")
+	defer st.Flush()
+	ct := &collectTB{}
+	var cases []C08Case
+	for _, n := range []int{4000, 30000, 70000} {
+		cases = append(cases, C08Case{Kind: "codabar", Content: BStr("A" + strings.Repeat("9+.:/$-0", n/8) + "D")},
+			C08Case{Kind: "2of5", Content: BStr(strings.Repeat("9", n))}, C08Case{Kind: "itf", Content: BStr(strings.Repeat("98", n/2))},
+			C08Case{Kind: "addchecksum", Content: BStr(strings.Repeat("9", n))}, C08Case{Kind: "addchecksum", Content: BStr(strings.Repeat("97", n/2) + "3")},
+			C08Case{Kind: "2of5", Content: BStr(strings.Repeat("0123456789", n/10))})
+	}
+	parallelFor(len(cases), 16, func(i int) {
+		if ct.Failed() {
+			return
+		}
+		ct.guard(func() {
+			ok := checkC08(ct, cases[i])
+			st.Eval()
+			c08Account(st, cases[i], ok)
+			st.Class(fmt.Sprintf("content of %d characters", len(cases[i].Content)))
+		})
+	})
+	st.Sample("long", map[string]any{"lengths": []int{4000, 30000, 70000}})
+	if ct.Failed() {
+		t.Fatalf("%s", ct.first)
+	}
+}
